@@ -104,3 +104,15 @@ def list_in_layout(env, M, gs, ps, form):
     else:
         obj, rows = base, list(range(L))
     return obj, rows, shift
+
+
+def as_dtype(env, a, dtype):
+    """the array `a` (symbolic object array or concrete ints) as an array of the given numpy dtype name: 'int64' plain;
+    'uint8' the unsigned stand-in (symbolic) / numpy.uint8 (concrete)"""
+    import numpy as np
+    if dtype == 'int64':
+        return a.copy()
+    if env.symbolic:
+        from symclif.shim_numpy import as_unsigned
+        return as_unsigned(a, 8)
+    return np.array(np.asarray(a).astype(np.int64), dtype=np.uint8)
